@@ -8,9 +8,10 @@ pkg=$(python3 -c "import json;print(json.load(open('_seed/meta.json'))['demo_pkg
 echo "== $id demo pkg=$pkg"
 (cd "$wt" && go build ./... 2>&1 | tail -2)
 with=$(cd "$wt" && timeout 300 go test -vet=off -count=1 -run 'TestZZSeedDemo' ./$pkg/ 2>&1 | tail -1)
-(cd "$wt" && git stash push -q -- $(git diff --name-only) )
+# NB: git stash is shared between worktrees; reverse-apply the patch instead
+(cd "$wt" && git apply -R _seed/patch.diff)
 without=$(cd "$wt" && timeout 300 go test -vet=off -count=1 -run 'TestZZSeedDemo' ./$pkg/ 2>&1 | tail -1)
-(cd "$wt" && git stash pop -q)
+(cd "$wt" && git apply _seed/patch.diff)
 echo "   demo with change: $with"
 echo "   demo without    : $without"
 # existing tests of the touched packages (excluding the demo)
